@@ -111,4 +111,17 @@ theorem collPullLoop_decision_held (E : MCmp) (flt : Val → Val)
       rw [hold] at he
       exact htrans _ _ _ hinv he
 
+theorem collPullLoopI_none (E : Option MCmp) (flt : Val → Val) :
+    ∀ events : List CEvent, collPullLoopI E flt none events = (collPullLoop E flt events).map some
+  | [] => by simp [collPullLoopI, collPullLoop]
+  | ev :: rest => by
+    have ih := collPullLoopI_none E flt rest
+    simp only [collPullLoopI] at ih
+    cases E <;> simp [collPullLoopI, collPullLoop, collPullStep, includeAdjust, ih]
+
+/-- Whether the subscriber (with include predicate `f`) sees the item when its stored value is `t`. -/
+def visible (f : Val → Bool) : Top → Bool
+  | some v => f v
+  | none => false
+
 end ScVerif.C16
